@@ -1,5 +1,6 @@
 import Driver.AstParse
 import UgoVerif.Model.Compile
+import UgoVerif.Spec.AstShape
 /-
   `compile <disabled,comma-separated-hex> <ast>` → canonical text of the Bytecode produced by the
   compiler model (NoOptimize): main function, constants, source maps.
@@ -61,6 +62,8 @@ def handleCompile (args : List String) : String :=
     match parseFile astS with
     | none => "bad-ast"
     | some file =>
+      -- the shape hypothesis of theorem compile_no_panic, checked on every AST the parser ships
+      if !okSs file then "bad-shape: assignment with an empty left-hand side" else
       match compileFile builtinsMap [] file with
       | .ok bc => "ok " ++ showFn bc.main ++ " ; " ++ " ".intercalate (bc.constants.toList.map showConst)
       | .error (.err pos msg) => s!"err {pos} {msg}"
